@@ -46,6 +46,7 @@ class Contract:
     trusted: bool = False                      # contract assumed, body not verified (listed in evidence)
     note: str = ''
     lemma: bool = False                        # pure spec lemma: no code, goal must be valid
+    preamble: bool = False                     # closures: execute the enclosing function up to the def to obtain the environment
     table: bool = False                        # module-level value (literal table / stock object)
 
     def all_props(self) -> List[str]:
@@ -144,7 +145,7 @@ class Sidecar:
                 con.invariants = {self._lit(kk): vv for kk, vv in zip(v.keys, v.values)}
             elif k == 'variants':
                 con.variants = {self._lit(kk): vv for kk, vv in zip(v.keys, v.values)}
-            elif k in ('total', 'result_kind', 'result_fresh', 'result_opaque', 'mutable', 'frame', 'props', 'total_attr_roots', 'trusted', 'note'):
+            elif k in ('total', 'result_kind', 'result_fresh', 'result_opaque', 'preamble', 'mutable', 'frame', 'props', 'total_attr_roots', 'trusted', 'note'):
                 setattr(con, k, self._lit(v))
             elif k == 'goal' and is_lemma:
                 con.ensures = self._clauses(v, 'lemma')
@@ -260,16 +261,53 @@ class Engine(Core, Expr, Calls, Builtins, Stmts):
         if a.kwarg is not None:
             env[a.kwarg.arg] = VVal(z3.Const(a.kwarg.arg, th.Val), kind='map', fresh=True)
             pnames.append(a.kwarg.arg)
-        # closures: free variables of a nested function are symbolic inputs too (declared via shapes "free:<name>")
-        for k, kind in con.shapes.items():
-            if k.startswith('free:'):
-                n = k[5:]
-                env[n] = self.mkval(z3.Const(n, th.Val), kind or None)
-                pnames.append(n)
+        # closures: the enclosing function is executed up to the closure's definition, with ITS parameters symbolic
+        # (shape hints "free:<name>"); whatever it binds before the def is the closure's environment
+        pre_pc = []
+        if fi.parent is not None and not con.preamble:
+            for k, kind in con.shapes.items():
+                if k.startswith('free:'):
+                    env[k[5:]] = self.mkval(z3.Const(k[5:], th.Val), kind or None)
+                    pnames.append(k[5:])
+        if fi.parent is not None and con.preamble:
+            pfi = self.idx.func(f'{fi.module}:{fi.parent}')
+            pa = pfi.node.args
+            penv: Dict[str, SV] = {}
+            for p in [x.arg for x in pa.posonlyargs + pa.args + pa.kwonlyargs]:
+                penv[p] = self.mkval(z3.Const(p, th.Val), con.shapes.get('free:' + p))
+            for k, kind in con.shapes.items():
+                if k.startswith('free:') and k[5:] not in penv:
+                    penv[k[5:]] = self.mkval(z3.Const(k[5:], th.Val), kind or None)
+            self.frame_ctr += 1
+            penv['$frame'] = self.frame_ctr
+            pst = State(penv, [])
+            saved_qual = self.cur_qual
+            self.cur_qual = pfi.qualname
+            pre = []
+            for stmt in pfi.node.body:
+                if stmt is fi.node or any(n is fi.node for n in ast.walk(stmt)):
+                    break
+                pre.append(stmt)
+            saved_obs = self.obligations
+            self.obligations = []
+            try:
+                outs0 = self.exec_block(pre, pst)
+            finally:
+                self.obligations = saved_obs
+                self.cur_qual = saved_qual
+            falls = [s for k, v, s in outs0 if k == 'fall']
+            if len(falls) != 1:
+                raise OutOfSubset(f'enclosing function {fi.parent} does not reach the closure on exactly one path')
+            pst = falls[0]
+            pre_pc = list(pst.pc)
+            for k, v in pst.env.items():
+                if k not in env and not k.startswith('$') and v is not None:
+                    env[k] = v
+                    pnames.append(k)
         self.entry_env = dict(env)
         self.frame_ctr += 1
         env['$frame'] = self.frame_ctr
-        st = State(dict(env), [])
+        st = State(dict(env), list(pre_pc))
         for (lam, _p, _k) in con.requires + con.assumes:
             st.add(self.eval_clause(lam, env, st))
         npre = len(st.pc)
@@ -451,6 +489,18 @@ class Engine(Core, Expr, Calls, Builtins, Stmts):
                 ob.reason = f'{why}; /usr/bin/z3: {r2} {why2}'
         ob.time_s = time.time() - t0
         return ob
+
+    def feasible(self, pc, ms=3000):
+        s = z3.Solver()
+        s.set('timeout', ms)
+        for ax in self.th.axioms(lean=True):
+            s.add(ax)
+        for f in self.standing:
+            s.add(f)
+        for f in pc:
+            s.add(f)
+        r = s.check()
+        return 'unsat' if r == z3.unsat else ('sat' if r == z3.sat else 'unknown')
 
     def second_backend(self, solver, ms):
         import subprocess
